@@ -1,72 +1,1 @@
-import JinjaV.Gen.ExprTables
-import JinjaV.Gen.LRUSteps
-import JinjaV.Gen.LexerKey
-import JinjaV.Gen.Sandbox
-import JinjaV.Gen.UndefinedTable
-import JinjaV.Lemmas.Expr
-import JinjaV.Lemmas.I18n
-import JinjaV.Lemmas.LRU
-import JinjaV.Lemmas.Lex
-import JinjaV.Lemmas.Literal
-import JinjaV.Lemmas.PyLiteral
-import JinjaV.Model.Expr
-import JinjaV.Model.FiltColl
-import JinjaV.Model.I18n
-import JinjaV.Model.LRU
-import JinjaV.Model.Lex
-import JinjaV.Model.Literal
-import JinjaV.Model.Loop
-import JinjaV.Model.Macro
-import JinjaV.Model.Native
-import JinjaV.Model.Path
-import JinjaV.Model.Stream
-import JinjaV.Model.Sx
-import JinjaV.Model.TplCache
-import JinjaV.Model.UndefinedOps
-import JinjaV.Props.C02
-import JinjaV.Props.C06
-import JinjaV.Props.C07
-import JinjaV.Props.C08
-import JinjaV.Props.C10
-import JinjaV.Props.C11
-import JinjaV.Props.C12
-import JinjaV.Props.C13
-import JinjaV.Props.C14
-import JinjaV.Props.C17
-import JinjaV.Props.C18
-import JinjaV.Props.C19
-import JinjaV.Props.C20
-import JinjaV.Props.C21
-import JinjaV.Props.C22
-import JinjaV.Props.C25
-import JinjaV.Props.C26
-import JinjaV.Props.C26Sched
-import JinjaV.Props.C28
-import JinjaV.Props.C33
-import JinjaV.Props.C34
-import JinjaV.Props.C39
-import JinjaV.Spec.ExprSyntax
-import JinjaV.Spec.I18n
-import JinjaV.Spec.LRU
-import JinjaV.Spec.Linearizable
-import JinjaV.Spec.Loop
-import JinjaV.Spec.Macro
-import JinjaV.Spec.PyLiteral
-import JinjaV.Spec.Trim
-import JinjaV.Spec.Undefined
 import JinjaV.Wire.All
-import JinjaV.Wire.Expr
-import JinjaV.Wire.FiltColl
-import JinjaV.Wire.I18n
-import JinjaV.Wire.LRU
-import JinjaV.Wire.Lex
-import JinjaV.Wire.Literal
-import JinjaV.Wire.Loop
-import JinjaV.Wire.Macro
-import JinjaV.Wire.Native
-import JinjaV.Wire.Path
-import JinjaV.Wire.Sandbox
-import JinjaV.Wire.Stream
-import JinjaV.Wire.TplCache
-import JinjaV.Wire.Trim
-import JinjaV.Wire.Undefined
